@@ -1063,6 +1063,29 @@ func c03Case(w *core.Worker, i int) {
 	vp := colProfile{Kind: "ints", Vals: []string{"0", "1", "2", "3", "4", "5", "6", "7", "-1"}, NullPct: 15}
 	sp := colProfile{Kind: "text", Vals: profText[:12], NullPct: 15}
 	ga := genTable(r, "a", na, []colProfile{kp, vp, sp}, []string{"k", "v", "s"})
+	if big && r.P(60) {
+		// clustered keys: runs of consecutive rows share one key, and some runs hold a key no other table has —
+		// so that whole goroutine chunks of a join produce no row while later ones do
+		kc := -1
+		for j, c := range ga.Cols {
+			if c == "k" {
+				kc = j
+			}
+		}
+		runKeys := []string{"0", "1", "2", "3", "4", "5", "100", "101", "102", "103", ""}
+		for at := 0; at < len(ga.Rows) && kc >= 0; {
+			l := r.Range(8, 90)
+			key := runKeys[r.Intn(len(runKeys))]
+			for e := at + l; at < e && at < len(ga.Rows); at++ {
+				if key == "" {
+					ga.Rows[at][kc] = nil
+				} else {
+					ga.Rows[at][kc] = core.Sp(key)
+				}
+			}
+		}
+		w.Count("cases_with_clustered_join_keys", 1)
+	}
 	gb := genTable(r, "b", r.Range(0, 9), []colProfile{kp, vp}, []string{"k", "w"})
 	gc := genTable(r, "c", r.Range(0, 6), []colProfile{kp}, []string{"k"})
 	files := map[string]string{"a.csv": ga.CSV(), "b.csv": gb.CSV(), "c.csv": gc.CSV()}
